@@ -125,8 +125,17 @@ namespace bxdecay0 {
     double Zdbb;     ///< Atomic number of daughter nucleus (Z>0 for b-b- and Z<0 for b+b+ and eb+ processes)
     double Adbb;     ///< Mass number of daughter nucleus
     int    istartbb; ///< Initialization flag must be =0 for first call of bb for a given mode
+#ifdef BXDECAY0_VERIF
+    double _verif_redzone0[2] = {0., 0.}; ///< never accessed by the library: verification harnesses poison it to trap accesses outside the tables
+#endif
     double spthe1[SPSIZE];
+#ifdef BXDECAY0_VERIF
+    double _verif_redzone1[2] = {0., 0.}; ///< idem
+#endif
     double spthe2[SPSIZE];
+#ifdef BXDECAY0_VERIF
+    double _verif_redzone2[2] = {0., 0.}; ///< idem
+#endif
     double spmax;
 
     /// Default constructor
